@@ -88,6 +88,8 @@ def run(kind, x, y, n, kw, rng=None):
         # answers are the caller's own arrays, the next equal request starts from the averages again
         first = cls(kind)(np.array(x, copy=True), np.array(y, copy=True), n, **kw).rfa()
         callform.scribble(first, [])
+    if rng is not None and rng.integers(0, 3) == 0:
+        x = gen.as_container(rng, x)[0]         # the abscissae in any of the containers (the constructor converts on entry)
     obj = build(rng, kind, x, y, n, kw)
     if rng is not None and rng.integers(0, 4) == 0:
         n2 = gen_n(rng)
